@@ -3,6 +3,13 @@
    Model: Model/Linked.v (metadata getter/setter, edit_em_metadata, partner getters/setters, waveform setter, re-open,
    copy + copy_complement), proofs: Proofs/LinkedProofs.v.
 
+   SCOPE.  Every theorem below is about electromagnetic pairs (receivers/transmitters, tipper receivers/base stations):
+   [inv] requires [is_dc (fam _) = false], so DIRECT-CURRENT (potential/current electrode) pairs are excluded from all of them;
+   the copy theorems (C20_copy_links_copies, C20_copy_of_copy) additionally exclude the LARGE-LOOP families
+   ([is_large (fam ea) = false]).  Electrode pairs and large-loop copies are covered by the correspondence (the model
+   functions dc_link / dc_edit / dc_copy and the large-loop branch of em_copy are evaluated on every generated history and
+   compared with the implementation) and by the oracle, not by theorems.
+
    [inv s w u1 u2] : the entities u1, u2 of workspace w exist with opposite roles, the stored metadata of both is the same
    dictionary fd, fd names u1 under u1's link key and u2 under u2's, and whichever of the two holds a cached dict reads
    exactly fd ([inv_reads] spells this out through the getters). *)
@@ -52,7 +59,8 @@ Theorem C20_copy_links_copies : forall s w ua ub ea tw mask s' uc,
   em_copy s ea tw mask = Ok (s', uc) ->
   exists uc2,
     inv s' tw uc uc2 /\ inv s' w ua ub /\ wf s'
-    /\ get_ent tw uc (ents s) = None /\ get_ent tw uc2 (ents s) = None /\ uc <> uc2.
+    /\ get_ent tw uc (ents s) = None /\ get_ent tw uc2 (ents s) = None /\ uc <> uc2
+    /\ keys_apart w ua ub tw uc uc2 /\ cells_apart s' w ua ub tw uc uc2.
 Proof. exact copy_links_copies. Qed.
 Print Assumptions C20_copy_links_copies.
 
@@ -86,6 +94,17 @@ Theorem C20_copy_isolated_partial : forall s w ua ub tw uc uc2 ec k z,
   inv (em_edit s ec k (VZ z)) w ua ub.
 Proof. exact edit_other_pair. Qed.
 Print Assumptions C20_copy_isolated_partial.
+
+(* ... and a copy establishes exactly those two side conditions (C20_copy_links_copies), so: after copying a pair, a scalar
+   parameter edit through the copied entity leaves the source pair consistent. *)
+Theorem C20_copy_then_edit_isolated : forall s w ua ub ea tw mask s' uc ec k z,
+  wf s -> inv s w ua ub -> get_ent w ua (ents s) = Some ea -> is_large (fam ea) = false ->
+  (forall fd, sees s ea = Some fd -> link_keys_hold_uids fd) ->
+  em_copy s ea tw mask = Ok (s', uc) ->
+  get_ent tw uc (ents s') = Some ec -> k <> KA -> k <> KB ->
+  inv (em_edit s' ec k (VZ z)) w ua ub.
+Proof. exact copy_then_edit_isolated. Qed.
+Print Assumptions C20_copy_then_edit_isolated.
 
 (* non-vacuity: the history create rx, create tx, link establishes the invariant and well-formedness; on that state the
    hypotheses of the copy theorem hold and the copy succeeds *)
